@@ -2,6 +2,8 @@ import Driver.OpsRange
 import Driver.OpsFields
 import Driver.OpsEngine
 import Driver.OpsFixed
+import Driver.OpsCli
+import Driver.OpsSql
 open Driver
 
 def dispatch (args : List String) : String :=
@@ -12,6 +14,8 @@ def dispatch (args : List String) : String :=
     else if op.startsWith "field." then opFields args
     else if op == "engine" then opEngine args
     else if op == "fixed" then opFixed args
+    else if op == "cli" then opCli args
+    else if op.startsWith "sql." then opSql args
     else "bad-op"
 
 partial def loop (h : IO.FS.Stream) (out : IO.FS.Stream) : IO Unit := do
